@@ -1,39 +1,61 @@
 (* C19, function-body level: the frame theorem for the structured slice language of
    model/HeapProg.v.  A function body that passes the ownership analysis `own_stmt` from the
-   initial flags own0 (true exactly for the parameters the function is ALLOWED to write or keep:
-   none for an API function, the inferred contract for an internal helper) - on every
-   execution, also one that stops early by return, break or panic, whatever branches it takes,
-   however often its loops run, whatever indices, lengths and bytes it uses -
-     (1) changes no array that existed at the call except those of the allowed parameters, and
-     (2) lets escape (returns, stores in shared objects) only slices that live in arrays
-         allocated during the call or in arrays of the allowed parameters. *)
+   initial flags (write flags wf / keep flags kf: true exactly for the parameters the function is
+   ALLOWED to write through / to keep: none for an API function, the inferred contract for an
+   internal helper) - on every execution, also one that stops early by return, break or panic,
+   whatever branches it takes, however often its loops run, whatever indices, lengths and bytes it
+   uses -
+     (1) changes no array that existed at the call except those of the parameters it may write, and
+     (2) lets escape (returns, stores in shared objects, hands to a callee that keeps it) only slices
+         that live in arrays allocated during the call or in arrays of the parameters it may keep. *)
 From Coq Require Import List NArith Arith Bool Lia.
 From Tink Require Import Heap HeapProofs HeapProg.
 Import ListNotations.
 
 (* ---- lists of flags ---- *)
 
-Lemma nth_andl a b v : nth v (andl a b) false = nth v a false && nth v b false.
+Lemma fand_bot_r x : fand x fbot = fbot.
+Proof. destruct x; unfold fand, fbot; simpl. rewrite !andb_false_r. reflexivity. Qed.
+
+Lemma nth_andl a b v : nth v (andl a b) fbot = fand (nth v a fbot) (nth v b fbot).
 Proof.
-  unfold andl. revert b v. induction a as [|x a IH]; intros [|y b] [|v]; simpl; auto.
-  - rewrite andb_false_r. reflexivity.
-  - rewrite andb_false_r. reflexivity.
+  unfold andl. revert b v. induction a as [|x a IH]; intros [|y b] [|v]; simpl; auto;
+    try (rewrite fand_bot_r; reflexivity).
 Qed.
 
 Lemma length_andl a b : length a = length b -> length (andl a b) = length a.
 Proof. intros H. unfold andl. rewrite map_length, combine_length. lia. Qed.
 
+Lemma fle_refl_bot x : fle fbot x = true.
+Proof. reflexivity. Qed.
+
 Lemma lel_nth a b : length a = length b -> lel a b = true ->
-  forall v, nth v a false = true -> nth v b false = true.
+  forall v, fle (nth v a fbot) (nth v b fbot) = true.
 Proof.
-  unfold lel. revert b. induction a as [|x a IH]; intros [|y b] L H v Hv; simpl in *; try discriminate.
-  - destruct v; discriminate.
-  - apply andb_prop in H. destruct H as [H1 H2]. destruct v as [|v].
-    + subst x. exact H1.
-    + apply IH; auto.
+  unfold lel. revert b. induction a as [|x a IH]; intros [|y b] L H v; simpl in *; try discriminate.
+  - destruct v; reflexivity.
+  - apply andb_prop in H. destruct H as [H1 H2]. destruct v as [|v]; auto.
 Qed.
 
-Lemma nth_top own v : v < length own -> nth v (top own) false = true.
+Lemma fle_w a b : fle a b = true -> fw a = true -> fw b = true.
+Proof. unfold fle. intros H W. rewrite W in H. destruct (fw b); auto. Qed.
+
+Lemma fle_k a b : fle a b = true -> fk a = true -> fk b = true.
+Proof. unfold fle. intros H K. rewrite K in H. destruct (fw a), (fw b), (fk b); simpl in *; auto. Qed.
+
+Lemma fle_fand_l a b : fle (fand a b) a = true.
+Proof. destruct a as [[] [] []], b as [[] [] []]; reflexivity. Qed.
+
+Lemma fle_fand_r a b : fle (fand a b) b = true.
+Proof. destruct a as [[] [] []], b as [[] [] []]; reflexivity. Qed.
+
+Lemma fle_trans a b c : fle a b = true -> fle b c = true -> fle a c = true.
+Proof. destruct a as [[] [] []], b as [[] [] []], c as [[] [] []]; simpl; auto. Qed.
+
+Lemma fle_top a : fle a ftop = true.
+Proof. destruct a as [[] [] []]; reflexivity. Qed.
+
+Lemma nth_top own v : v < length own -> nth v (top own) fbot = ftop.
 Proof.
   unfold top. revert v. induction own as [|x l IH]; intros [|v] H; simpl in *; try lia; auto. apply IH. lia.
 Qed.
@@ -41,15 +63,17 @@ Qed.
 Lemma length_top own : length (top own) = length own.
 Proof. unfold top. apply map_length. Qed.
 
-Lemma nth_true_lt (l : list bool) v : nth v l false = true -> v < length l.
-Proof. revert v. induction l as [|x l IH]; intros [|v] H; simpl in *; try discriminate; try lia. apply IH in H. lia. Qed.
+Lemma nth_beyond (l : list fl) v : length l <= v -> nth v l fbot = fbot.
+Proof. intros H. apply nth_overflow. exact H. Qed.
 
-Lemma nth_set_nth_flag r b own v :
-  nth v (set_nth r b own) false = true -> (v = r /\ b = true) \/ (v <> r /\ nth v own false = true).
+(* a flag read after an assignment *)
+Lemma nth_set_nth_proj (P : fl -> bool) r b own v : P fbot = false ->
+  P (nth v (set_nth r b own) fbot) = true -> (v = r /\ P b = true) \/ (v <> r /\ P (nth v own fbot) = true).
 Proof.
-  intros H. destruct (Nat.eq_dec v r) as [->|Hne].
-  - left. split; auto. pose proof (nth_true_lt _ _ H) as L. rewrite set_nth_length in L.
-    rewrite nth_set_nth_eq in H by exact L. exact H.
+  intros Pb H. destruct (Nat.eq_dec v r) as [->|Hne].
+  - left. split; auto. destruct (Nat.lt_ge_cases r (length own)) as [L|G].
+    + rewrite nth_set_nth_eq in H by exact L. exact H.
+    + rewrite nth_beyond in H by (rewrite set_nth_length; exact G). congruence.
   - right. split; auto. rewrite nth_set_nth_neq in H by auto. exact H.
 Qed.
 
@@ -63,6 +87,22 @@ Proof.
     + right. split; [discriminate|exact H].
     + right. split; [discriminate|exact H].
     + apply IH in H. destruct H as [[-> ->]|[Hne H]]; [left; auto|right; split; [congruence|exact H]].
+Qed.
+
+Lemma fold_fand_w (o : nat -> fl) vs : fw (fold_right (fun v a => fand (o v) a) ftop vs) = true ->
+  forall v, In v vs -> fw (o v) = true.
+Proof.
+  induction vs as [|x vs IH]; simpl; intros H v [].
+  - subst. apply andb_prop in H. tauto.
+  - apply andb_prop in H. apply IH; tauto.
+Qed.
+
+Lemma fold_fand_k (o : nat -> fl) vs : fk (fold_right (fun v a => fand (o v) a) ftop vs) = true ->
+  forall v, In v vs -> fk (o v) = true.
+Proof.
+  induction vs as [|x vs IH]; simpl; intros H v [].
+  - subst. apply andb_prop in H. tauto.
+  - apply andb_prop in H. apply IH; tauto.
 Qed.
 
 (* ---- lengths are preserved by the analysis ---- *)
@@ -90,18 +130,18 @@ Proof.
   - apply IH in H. rewrite H. apply length_andl. rewrite length_andl; lia.
 Qed.
 
+Ltac inv_ok H := inversion H; subst; rewrite ?set_nth_length, ?length_top; split; reflexivity.
+
 Lemma own_stmt_length s : forall own n j, own_stmt s own = Some (n, j) -> length n = length own /\ length j = length own.
 Proof.
-  induction s as [r|r v|r v|r vs|r|v|v|r v|d s0|r vs|r v|x v|v| | | |a IHa b IHb|a IHa b IHb|b IHb];
-    intros own n j H; simpl in H;
-    try (inversion H; subst; rewrite ?set_nth_length, ?length_top; split; reflexivity).
-  - destruct (nth v own false); inversion H; subst. rewrite length_top. auto.
-  - destruct (nth v own false); inversion H; subst. rewrite length_top. auto.
-  - destruct (nth v own false); inversion H; subst. rewrite length_top, set_nth_length. auto.
-  - destruct (nth d own false); inversion H; subst. rewrite length_top. auto.
-  - destruct (nth x own false); [|destruct (nth v own false)]; inversion H; subst;
-      rewrite length_top, ?set_nth_length; auto.
-  - destruct (nth v own false); inversion H; subst. rewrite length_top. auto.
+  induction s as [r|r v|r v|r vs|r|v|v|r v|d s0|r vs|r v|x v|v| | | |a IHa b IHb|a IHa b IHb|b IHb|c args eff IHe];
+    intros own n j H; simpl in H; try (inv_ok H).
+  - destruct (fw (nth v own fbot)); [inv_ok H|discriminate].
+  - destruct (fw (nth v own fbot)); [inv_ok H|discriminate].
+  - destruct (fw (nth v own fbot)); [inv_ok H|discriminate].
+  - destruct (fw (nth d own fbot)); [inv_ok H|discriminate].
+  - destruct (fp (nth x own fbot)); [inv_ok H|]. destruct (fk (nth v own fbot)); [inv_ok H|discriminate].
+  - destruct (fk (nth v own fbot)); [inv_ok H|discriminate].
   - destruct (own_stmt a own) as [[na ja]|] eqn:A; [|discriminate].
     destruct (own_stmt b na) as [[nb jb]|] eqn:B; [|discriminate].
     inversion H; subst. destruct (IHa _ _ _ A) as [L1 L2]. destruct (IHb _ _ _ B) as [L3 L4].
@@ -110,103 +150,132 @@ Proof.
     destruct (own_stmt b own) as [[nb jb]|] eqn:B; [|discriminate].
     inversion H; subst. destruct (IHa _ _ _ A) as [L1 L2]. destruct (IHb _ _ _ B) as [L3 L4].
     split; rewrite length_andl; lia.
-  - destruct (loop_fix (own_stmt b) (S (length own)) own) as [hd|] eqn:F; [|discriminate].
+  - destruct (loop_fix (own_stmt b) (S (length own + length own + length own)) own) as [hd|] eqn:F; [|discriminate].
     inversion H; subst. rewrite length_top. split; auto.
     apply (loop_fix_length (own_stmt b) IHb) in F. exact F.
+  - apply IHe. exact H.
 Qed.
 
 (* what a successful loop analysis gives: flags hd below the incoming ones, stable under the body *)
 Lemma loop_fix_spec f : (forall x n j, f x = Some (n, j) -> length n = length x /\ length j = length x) ->
   forall fuel hd0 hd, loop_fix f fuel hd0 = Some hd ->
-    length hd = length hd0 /\ (forall v, nth v hd false = true -> nth v hd0 false = true) /\
+    length hd = length hd0 /\ (forall v, fle (nth v hd fbot) (nth v hd0 fbot) = true) /\
     exists n j, f hd = Some (n, j) /\ lel hd (andl n j) = true.
 Proof.
   intros Hf. induction fuel as [|k IH]; intros hd0 hd H; [rewrite loop_fix_O in H; discriminate|rewrite loop_fix_S in H].
   destruct (f hd0) as [[n j]|] eqn:F; [|discriminate].
   destruct (Hf _ _ _ F) as [Ln Lj].
   destruct (lel hd0 (andl n j)) eqn:Le.
-  - inversion H; subst. split; auto. split; auto. exists n, j. auto.
+  - inversion H; subst. split; auto. split.
+    + intros v. destruct (nth v hd fbot) as [[] [] []]; reflexivity.
+    + exists n, j. auto.
   - apply IH in H. destruct H as (L & M & E). split.
     + rewrite L. apply length_andl. rewrite length_andl; lia.
-    + split; auto. intros v Hv. apply M in Hv. rewrite nth_andl in Hv. apply andb_prop in Hv. tauto.
+    + split; auto. intros v. eapply fle_trans; [apply M|]. rewrite nth_andl. apply fle_fand_l.
 Qed.
 
 (* ---- the invariant ---- *)
 
 Definition okarr (n0 : nat) (W : list nat) (a : nat) : Prop := n0 <= a \/ In a W.
 
-(* the part that does not mention flags: arrays of the caller outside W are untouched, every escaped
-   slice lives in a fresh array or in W *)
-Definition PFrame (h0 : heap) (W : list nat) (st : pstate) : Prop :=
+(* the part that does not mention flags: arrays of the caller outside Ww are untouched, every escaped
+   slice lives in a fresh array or in Wk *)
+Definition PFrame (h0 : heap) (Ww Wk : list nat) (st : pstate) : Prop :=
   let '(h, rs, lg) := st in
   length h0 <= length h /\
-  (forall a, a < length h0 -> ~ In a W -> array h a = array h0 a) /\
-  (forall s, In s lg -> okarr (length h0) W (arr s)).
+  (forall a, a < length h0 -> ~ In a Ww -> array h a = array h0 a) /\
+  (forall s, In s lg -> okarr (length h0) Wk (arr s)).
 
-Definition PInv (h0 : heap) (W : list nat) (st : pstate) (own : list bool) : Prop :=
+Definition PInv (h0 : heap) (Ww Wk : list nat) (st : pstate) (own : list fl) : Prop :=
   let '(h, rs, lg) := st in
-  PFrame h0 W st /\ length own = length rs /\
-  (forall v s, nth_error rs v = Some s -> nth v own false = true -> okarr (length h0) W (arr s)).
+  PFrame h0 Ww Wk st /\ length own = length rs /\
+  (forall v s, nth_error rs v = Some s -> fw (nth v own fbot) = true -> okarr (length h0) Ww (arr s)) /\
+  (forall v s, nth_error rs v = Some s -> fk (nth v own fbot) = true -> okarr (length h0) Wk (arr s)).
 
-Lemma PInv_frame h0 W st own : PInv h0 W st own -> PFrame h0 W st.
+Lemma PInv_frame h0 Ww Wk st own : PInv h0 Ww Wk st own -> PFrame h0 Ww Wk st.
 Proof. destruct st as [[h rs] lg]. intros (F & _). exact F. Qed.
 
-Lemma PInv_mono h0 W st own own' : PInv h0 W st own -> length own' = length own ->
-  (forall v, nth v own' false = true -> nth v own false = true) -> PInv h0 W st own'.
+Lemma PInv_mono h0 Ww Wk st own own' : PInv h0 Ww Wk st own -> length own' = length own ->
+  (forall v, fle (nth v own' fbot) (nth v own fbot) = true) -> PInv h0 Ww Wk st own'.
 Proof.
-  destruct st as [[h rs] lg]. intros (F & L & O) L' M. split; [exact F|]. split; [lia|].
-  intros v s Hv Ho. eapply O; eauto.
+  destruct st as [[h rs] lg]. intros (F & L & Ow & Ok) L' M. split; [exact F|]. split; [lia|]. split.
+  - intros v s Hv Ho. eapply Ow; eauto. eapply fle_w; eauto.
+  - intros v s Hv Ho. eapply Ok; eauto. eapply fle_k; eauto.
 Qed.
 
-Lemma PInv_andl_l h0 W st a b : PInv h0 W st a -> length a = length b -> PInv h0 W st (andl a b).
+Lemma PInv_andl_l h0 Ww Wk st a b : PInv h0 Ww Wk st a -> length a = length b -> PInv h0 Ww Wk st (andl a b).
 Proof.
   intros I L. eapply PInv_mono; eauto. apply length_andl; auto.
-  intros v H. rewrite nth_andl in H. apply andb_prop in H. tauto.
+  intros v. rewrite nth_andl. apply fle_fand_l.
 Qed.
 
-Lemma PInv_andl_r h0 W st a b : PInv h0 W st b -> length a = length b -> PInv h0 W st (andl a b).
+Lemma PInv_andl_r h0 Ww Wk st a b : PInv h0 Ww Wk st b -> length a = length b -> PInv h0 Ww Wk st (andl a b).
 Proof.
   intros I L. eapply PInv_mono; eauto. rewrite length_andl; auto.
-  intros v H. rewrite nth_andl in H. apply andb_prop in H. tauto.
+  intros v. rewrite nth_andl. apply fle_fand_r.
 Qed.
 
 (* a register is (re)assigned; the heap may have grown or been written in permitted places *)
-Lemma PInv_assign h0 W h rs lg own h' r s b :
-  PInv h0 W (h, rs, lg) own ->
+Lemma PInv_assign h0 Ww Wk h rs lg own h' r s b :
+  PInv h0 Ww Wk (h, rs, lg) own ->
   length h0 <= length h' ->
-  (forall a, a < length h0 -> ~ In a W -> array h' a = array h a) ->
-  (b = true -> okarr (length h0) W (arr s)) ->
-  PInv h0 W (h', set_nth r s rs, lg) (set_nth r b own).
+  (forall a, a < length h0 -> ~ In a Ww -> array h' a = array h a) ->
+  (fw b = true -> okarr (length h0) Ww (arr s)) ->
+  (fk b = true -> okarr (length h0) Wk (arr s)) ->
+  PInv h0 Ww Wk (h', set_nth r s rs, lg) (set_nth r b own).
 Proof.
-  intros ((L & F & G) & E & O) L' F' B. repeat split; auto.
+  intros ((L & F & G) & E & Ow & Ok) L' F' Bw Bk. repeat split; auto.
   - intros a Ha Hw. rewrite F' by auto. apply F; auto.
   - rewrite !set_nth_length. exact E.
-  - intros v t Hv Ho. apply nth_error_set_nth in Hv. apply nth_set_nth_flag in Ho.
+  - intros v t Hv Ho. apply nth_error_set_nth in Hv. apply (nth_set_nth_proj fw) in Ho; [|reflexivity].
     destruct Hv as [[-> ->]|[Hne Hv]]; destruct Ho as [[Hr Hb]|[Hne' Ho]]; try congruence; auto.
-    eapply O; eauto.
+    eapply Ow; eauto.
+  - intros v t Hv Ho. apply nth_error_set_nth in Hv. apply (nth_set_nth_proj fk) in Ho; [|reflexivity].
+    destruct Hv as [[-> ->]|[Hne Hv]]; destruct Ho as [[Hr Hb]|[Hne' Ho]]; try congruence; auto.
+    eapply Ok; eauto.
 Qed.
 
-Lemma PInv_heap h0 W h rs lg own h' :
-  PInv h0 W (h, rs, lg) own ->
-  length h0 <= length h' ->
-  (forall a, a < length h0 -> ~ In a W -> array h' a = array h a) ->
-  PInv h0 W (h', rs, lg) own.
+(* only the flags of a register are lowered *)
+Lemma PInv_reflag h0 Ww Wk h rs lg own r b :
+  PInv h0 Ww Wk (h, rs, lg) own ->
+  (fw b = true -> fw (nth r own fbot) = true) -> (fk b = true -> fk (nth r own fbot) = true) ->
+  PInv h0 Ww Wk (h, rs, lg) (set_nth r b own).
 Proof.
-  intros ((L & F & G) & E & O) L' F'. repeat split; auto.
+  intros (F & E & Ow & Ok) Bw Bk. split; [exact F|]. split; [rewrite set_nth_length; exact E|]. split.
+  - intros v t Hv Ho. apply (nth_set_nth_proj fw) in Ho; [|reflexivity].
+    destruct Ho as [[-> Hb]|[_ Ho]]; eapply Ow; eauto.
+  - intros v t Hv Ho. apply (nth_set_nth_proj fk) in Ho; [|reflexivity].
+    destruct Ho as [[-> Hb]|[_ Ho]]; eapply Ok; eauto.
+Qed.
+
+Lemma PInv_heap h0 Ww Wk h rs lg own h' :
+  PInv h0 Ww Wk (h, rs, lg) own ->
+  length h0 <= length h' ->
+  (forall a, a < length h0 -> ~ In a Ww -> array h' a = array h a) ->
+  PInv h0 Ww Wk (h', rs, lg) own.
+Proof.
+  intros ((L & F & G) & E & Ow & Ok) L' F'. repeat split; auto.
   intros a Ha Hw. rewrite F' by auto. apply F; auto.
 Qed.
 
-Lemma PInv_write h0 W h rs lg own a p bs :
-  PInv h0 W (h, rs, lg) own -> okarr (length h0) W a -> PInv h0 W (heap_write h a p bs, rs, lg) own.
+Lemma PInv_write h0 Ww Wk h rs lg own a p bs :
+  PInv h0 Ww Wk (h, rs, lg) own -> okarr (length h0) Ww a -> PInv h0 Ww Wk (heap_write h a p bs, rs, lg) own.
 Proof.
   intros I K. pose proof I as ((L & _) & _). apply PInv_heap with (h := h); auto.
   - rewrite heap_write_length. exact L.
   - intros b Hb Hw. apply heap_write_other. intros ->. destruct K as [K|K]; [lia|contradiction].
 Qed.
 
-Lemma owned_ok h0 W h rs lg own v s :
-  PInv h0 W (h, rs, lg) own -> nth_error rs v = Some s -> nth v own false = true -> okarr (length h0) W (arr s).
-Proof. intros (_ & _ & O) Hv Ho. eapply O; eauto. Qed.
+Lemma owned_w h0 Ww Wk h rs lg own v s :
+  PInv h0 Ww Wk (h, rs, lg) own -> nth_error rs v = Some s -> fw (nth v own fbot) = true -> okarr (length h0) Ww (arr s).
+Proof. intros (_ & _ & O & _) Hv Ho. eapply O; eauto. Qed.
+
+Lemma owned_k h0 Ww Wk h rs lg own v s :
+  PInv h0 Ww Wk (h, rs, lg) own -> nth_error rs v = Some s -> fk (nth v own fbot) = true -> okarr (length h0) Wk (arr s).
+Proof. intros (_ & _ & _ & O) Hv Ho. eapply O; eauto. Qed.
+
+Lemma PInv_len h0 Ww Wk h rs lg own : PInv h0 Ww Wk (h, rs, lg) own -> length h0 <= length h.
+Proof. intros ((L & _) & _). exact L. Qed.
 
 Lemma sub_arr s lo hi t : sub s lo hi = Some t -> arr t = arr s.
 Proof. unfold sub. destruct (_ && _); [|discriminate]. intros H; inversion H; reflexivity. Qed.
@@ -215,107 +284,114 @@ Lemma sub3_arr s lo hi mx t : sub3 s lo hi mx = Some t -> arr t = arr s.
 Proof. unfold sub3. destruct (_ && _); [|discriminate]. intros H; inversion H; reflexivity. Qed.
 
 (* one atomic statement preserves the invariant *)
-Lemma astep_sound h0 W st s st' : astep st s st' ->
-  forall own n j, own_stmt s own = Some (n, j) -> PInv h0 W st own -> PInv h0 W st' n.
+Lemma astep_sound h0 Ww Wk st s st' : astep st s st' ->
+  forall own n j, own_stmt s own = Some (n, j) -> PInv h0 Ww Wk st own -> PInv h0 Ww Wk st' n.
 Proof.
   intros A own n j S I. destruct A; simpl in S.
   - (* make *)
-    inversion S; subst; clear S. pose proof I as ((L & _) & _).
+    inversion S; subst; clear S. pose proof (PInv_len _ _ _ _ _ _ _ I) as L.
     unfold make. cbn [fst snd arr]. apply PInv_assign with (h := h); auto.
     + rewrite heap_write_length, app_length. simpl. lia.
-    + intros a Ha Hw. rewrite heap_write_other by lia. apply array_app_old. lia.
+    + intros a Ha Hw. cbn [arr]. rewrite heap_write_other by lia. apply array_app_old. lia.
+    + intros _. left. simpl. exact L.
     + intros _. left. simpl. exact L.
   - (* sub *)
     inversion S; subst; clear S. apply PInv_assign with (h := h); auto.
-    + pose proof I as ((L & _) & _). exact L.
-    + intros B. erewrite sub_arr by eauto. eapply owned_ok; eauto.
+    + eapply PInv_len; eauto.
+    + intros B. erewrite sub_arr by eauto. eapply owned_w; eauto.
+    + intros B. erewrite sub_arr by eauto. eapply owned_k; eauto.
   - inversion S; subst; clear S. apply PInv_assign with (h := h); auto.
-    + pose proof I as ((L & _) & _). exact L.
-    + intros B. erewrite sub3_arr by eauto. eapply owned_ok; eauto.
+    + eapply PInv_len; eauto.
+    + intros B. erewrite sub3_arr by eauto. eapply owned_w; eauto.
+    + intros B. erewrite sub3_arr by eauto. eapply owned_k; eauto.
   - (* alias *)
     inversion S; subst; clear S. apply PInv_assign with (h := h); auto.
-    + pose proof I as ((L & _) & _). exact L.
-    + intros B. eapply owned_ok; eauto.
+    + eapply PInv_len; eauto.
+    + intros B. eapply owned_w; eauto.
+    + intros B. eapply owned_k; eauto.
   - (* phi *)
     inversion S; subst; clear S. apply PInv_assign with (h := h); auto.
-    + pose proof I as ((L & _) & _). exact L.
-    + intros B. rewrite forallb_forall in B. eapply owned_ok; eauto.
+    + eapply PInv_len; eauto.
+    + intros B. eapply owned_w; eauto. eapply (fold_fand_w (fun v => nth v own fbot)); eauto.
+    + intros B. eapply owned_k; eauto. eapply (fold_fand_k (fun v => nth v own fbot)); eauto.
   - (* opaque *)
     inversion S; subst; clear S. apply PInv_assign with (h := h); auto.
-    + pose proof I as ((L & _) & _). exact L.
+    + eapply PInv_len; eauto.
+    + discriminate.
     + discriminate.
   - (* set *)
-    destruct (nth v own false) eqn:Ow; [|discriminate]. inversion S; subst; clear S.
+    destruct (fw (nth v own fbot)) eqn:Ow; [|discriminate]. inversion S; subst; clear S.
     unfold set in H0. destruct (i <? len s); [|discriminate]. inversion H0; subst.
-    apply PInv_write; auto. eapply owned_ok; eauto.
+    apply PInv_write; auto. eapply owned_w; eauto.
   - (* write *)
-    destruct (nth v own false) eqn:Ow; [|discriminate]. inversion S; subst; clear S.
-    apply PInv_write; auto. eapply owned_ok; eauto.
+    destruct (fw (nth v own fbot)) eqn:Ow; [|discriminate]. inversion S; subst; clear S.
+    apply PInv_write; auto. eapply owned_w; eauto.
   - (* append *)
-    destruct (nth v own false) eqn:Ow; [|discriminate]. inversion S; subst; clear S.
-    pose proof (owned_ok _ _ _ _ _ _ _ _ I H Ow) as K. pose proof I as ((L & _) & _).
+    destruct (fw (nth v own fbot)) eqn:Ow; [|discriminate]. inversion S; subst; clear S.
+    pose proof (owned_w _ _ _ _ _ _ _ _ _ I H Ow) as K. pose proof (PInv_len _ _ _ _ _ _ _ I) as L.
     unfold append. destruct (len s + length xs <=? cap s); cbn [fst snd].
     + apply PInv_assign with (h := h); auto.
       * rewrite heap_write_length. exact L.
       * intros a Ha Hw. apply heap_write_other. intros ->. destruct K as [K|K]; [lia|contradiction].
+      * cbn [fk arr]. intros B. exact (owned_k _ _ _ _ _ _ _ _ _ I H B).
     + apply PInv_assign with (h := h); auto.
       * rewrite app_length. simpl. lia.
       * intros a Ha Hw. apply array_app_old. lia.
       * intros _. left. simpl. exact L.
+      * intros _. left. simpl. exact L.
   - (* copy *)
-    destruct (nth d own false) eqn:Ow; [|discriminate]. inversion S; subst; clear S.
-    unfold copy. apply PInv_write; auto. eapply owned_ok; eauto.
+    destruct (fw (nth d own fbot)) eqn:Ow; [|discriminate]. inversion S; subst; clear S.
+    unfold copy. apply PInv_write; auto. eapply owned_w; eauto.
   - (* concat *)
-    inversion S; subst; clear S. pose proof I as ((L & _) & _).
+    inversion S; subst; clear S. pose proof (PInv_len _ _ _ _ _ _ _ I) as L.
     unfold concat. cbn [fst snd]. apply PInv_assign with (h := h); auto.
     + rewrite app_length. simpl. lia.
     + intros a Ha Hw. apply array_app_old. lia.
     + intros _. left. simpl. exact L.
+    + intros _. left. simpl. exact L.
   - (* clone *)
-    inversion S; subst; clear S. pose proof I as ((L & _) & _).
+    inversion S; subst; clear S. pose proof (PInv_len _ _ _ _ _ _ _ I) as L.
     unfold clone. cbn [fst snd]. apply PInv_assign with (h := h); auto.
     + rewrite app_length. simpl. lia.
     + intros a Ha Hw. apply array_app_old. lia.
     + intros _. left. simpl. exact L.
+    + intros _. left. simpl. exact L.
   - (* store, register unchanged *)
-    destruct (nth x own false) eqn:Ox.
-    + inversion S; subst; clear S. destruct I as (F & E & O). split; [exact F|]. split.
-      * rewrite set_nth_length. exact E.
-      * intros w t Hw Ho. apply nth_set_nth_flag in Ho. destruct Ho as [[-> _]|[_ Ho]]; eapply O; eauto.
-    + destruct (nth v own false); [|discriminate]. inversion S; subst. exact I.
+    destruct (fp (nth x own fbot)) eqn:Px.
+    + inversion S; subst; clear S. apply PInv_reflag; auto; cbn [fw fk]; intros B; apply andb_prop in B; tauto.
+    + destruct (fk (nth v own fbot)) eqn:Kv; [|discriminate]. inversion S; subst; clear S.
+      apply PInv_reflag; auto; cbn [fw fk]; intros B; try exact B. apply andb_prop in B. tauto.
   - (* store, register now shows the stored slice *)
-    destruct (nth x own false) eqn:Ox.
+    destruct (fp (nth x own fbot)) eqn:Px.
     + inversion S; subst; clear S. apply PInv_assign with (h := h); auto.
-      * pose proof I as ((L & _) & _). exact L.
-      * intros B. eapply owned_ok; eauto.
-    + destruct (nth v own false) eqn:Ov; [|discriminate]. inversion S; subst; clear S.
-      pose proof (owned_ok _ _ _ _ _ _ _ _ I H Ov) as K.
-      destruct I as (F & E & O). split; [exact F|]. split.
-      * rewrite set_nth_length. exact E.
-      * intros w t Hw Ho. apply nth_error_set_nth in Hw. destruct Hw as [[-> ->]|[_ Hw]]; [exact K|eapply O; eauto].
+      * eapply PInv_len; eauto.
+      * cbn [fw]. intros B. apply andb_prop in B. eapply owned_w; eauto. tauto.
+      * cbn [fk]. intros B. apply andb_prop in B. eapply owned_k; eauto. tauto.
+    + destruct (fk (nth v own fbot)) eqn:Kv; [|discriminate]. inversion S; subst; clear S.
+      apply PInv_assign with (h := h); auto.
+      * eapply PInv_len; eauto.
+      * cbn [fw]. intros B. apply andb_prop in B. eapply owned_w; eauto. tauto.
+      * intros _. eapply owned_k; eauto.
   - (* escape *)
-    destruct (nth v own false) eqn:Ow; [|discriminate]. inversion S; subst; clear S.
-    pose proof (owned_ok _ _ _ _ _ _ _ _ I H Ow) as K.
-    destruct I as ((L & F & G) & E & O). repeat split; auto.
-    intros t [<-|Ht]; auto.
+    destruct (fk (nth v own fbot)) eqn:Kv; [|discriminate]. inversion S; subst; clear S.
+    pose proof (owned_k _ _ _ _ _ _ _ _ _ I H Kv) as K.
+    assert (I' : PInv h0 Ww Wk (h, rs, s :: lg) own).
+    { destruct I as ((L & F & G) & E & Ow & Ok). repeat split; auto. intros t [<-|Ht]; auto. }
+    apply PInv_reflag; auto.
 Qed.
 
-Lemma not_astep_struct st st' :
-  (~ astep st SSkip st') /\ (~ astep st SJump st') /\ (~ astep st SReturn st') /\
-  (forall a b, ~ astep st (SSeq a b) st') /\ (forall a b, ~ astep st (SIf a b) st') /\ (forall b, ~ astep st (SLoop b) st').
-Proof. repeat split; intros; intro H; inversion H. Qed.
-
 (* every execution preserves the invariant, whatever way it ends *)
-Theorem own_stmt_sound h0 W : forall st s o st', exec st s o st' ->
-  forall own n j, own_stmt s own = Some (n, j) -> PInv h0 W st own ->
+Theorem own_stmt_sound h0 Ww Wk : forall st s o st', exec st s o st' ->
+  forall own n j, own_stmt s own = Some (n, j) -> PInv h0 Ww Wk st own ->
     match o with
-    | ONormal => PInv h0 W st' n
-    | OJump => PInv h0 W st' j
-    | OReturn => PFrame h0 W st'
+    | ONormal => PInv h0 Ww Wk st' n
+    | OJump => PInv h0 Ww Wk st' j
+    | OReturn => PFrame h0 Ww Wk st'
     end.
 Proof.
   induction 1 as [st s|st s st' A|st|st|st|st a b st1 o st2 Ha IHa Hb IHb|st a b o st1 No Ha IHa
-                 |st a b o st' Ha IHa|st a b o st' Hb IHb|st b|st b o st1 o' st2 No Hb IHb Hl IHl|st b st1 Hb IHb];
+                 |st a b o st' Ha IHa|st a b o st' Hb IHb|st b|st b o st1 o' st2 No Hb IHb Hl IHl|st b st1 Hb IHb
+                 |st c args eff o st' He IHe];
     intros own n j Hs I.
   - eapply PInv_frame; eauto.
   - eapply astep_sound; eauto.
@@ -347,39 +423,43 @@ Proof.
     destruct (own_stmt_length _ _ _ _ A) as [La Lja]. destruct (own_stmt_length _ _ _ _ B) as [Lb Ljb].
     destruct o; auto; apply PInv_andl_r; auto; lia.
   - (* loop exit *)
-    simpl in Hs. destruct (loop_fix (own_stmt b) (Datatypes.S (length own)) own) as [hd|] eqn:F; [|discriminate].
+    simpl in Hs. destruct (loop_fix (own_stmt b) (Datatypes.S (length own + length own + length own)) own) as [hd|] eqn:F; [|discriminate].
     inversion Hs; subst; clear Hs.
     destruct (loop_fix_spec _ (own_stmt_length b) _ _ _ F) as (L & M & _).
     eapply PInv_mono; eauto.
   - (* loop, one more iteration *)
-    simpl in Hs. destruct (loop_fix (own_stmt b) (Datatypes.S (length own)) own) as [hd|] eqn:F; [|discriminate].
+    simpl in Hs. destruct (loop_fix (own_stmt b) (Datatypes.S (length own + length own + length own)) own) as [hd|] eqn:F; [|discriminate].
     inversion Hs; subst; clear Hs.
     destruct (loop_fix_spec _ (own_stmt_length b) _ _ _ F) as (L & M & nb & jb & B & Le).
-    assert (Ih : PInv h0 W st n) by (eapply PInv_mono; eauto).
+    assert (Ih : PInv h0 Ww Wk st n) by (eapply PInv_mono; eauto).
     destruct (own_stmt_length _ _ _ _ B) as [Lb Ljb].
-    assert (I1 : PInv h0 W st1 n).
+    assert (I1 : PInv h0 Ww Wk st1 n).
     { pose proof (IHb _ _ _ B Ih) as I1.
-      assert (Ma : forall v, nth v n false = true -> nth v (andl nb jb) false = true).
+      assert (Ma : forall v, fle (nth v n fbot) (nth v (andl nb jb) fbot) = true).
       { apply lel_nth; auto. rewrite length_andl; lia. }
       destruct o; [| |congruence].
-      - eapply PInv_mono; eauto. intros v Hv. apply Ma in Hv. rewrite nth_andl in Hv. apply andb_prop in Hv. tauto.
-      - eapply PInv_mono; eauto. intros v Hv. apply Ma in Hv. rewrite nth_andl in Hv. apply andb_prop in Hv. tauto. }
+      - eapply PInv_mono; eauto. intros v. eapply fle_trans; [apply Ma|]. rewrite nth_andl. apply fle_fand_l.
+      - eapply PInv_mono; eauto. intros v. eapply fle_trans; [apply Ma|]. rewrite nth_andl. apply fle_fand_r. }
     assert (S' : own_stmt (SLoop b) n = Some (n, top n)).
-    { cbn [own_stmt]. rewrite loop_fix_S, B, Le. reflexivity. }
+    { cbn [own_stmt]. rewrite L. rewrite loop_fix_S, B, Le. reflexivity. }
     pose proof (IHl _ _ _ S' I1) as I2.
     destruct o'; auto.
     eapply PInv_mono; eauto.
     + rewrite !length_top. lia.
-    + intros v Hv. apply nth_true_lt in Hv. rewrite length_top in Hv. apply nth_top. lia.
+    + intros v. destruct (Nat.lt_ge_cases v (length own)) as [Lt|Ge].
+      * rewrite !nth_top by lia. reflexivity.
+      * rewrite (nth_beyond (top own)) by (rewrite length_top; lia). reflexivity.
   - (* loop, body returns *)
-    simpl in Hs. destruct (loop_fix (own_stmt b) (Datatypes.S (length own)) own) as [hd|] eqn:F; [|discriminate].
+    simpl in Hs. destruct (loop_fix (own_stmt b) (Datatypes.S (length own + length own + length own)) own) as [hd|] eqn:F; [|discriminate].
     inversion Hs; subst; clear Hs.
     destruct (loop_fix_spec _ (own_stmt_length b) _ _ _ F) as (L & M & nb & jb & B & Le).
-    assert (Ih : PInv h0 W st n) by (eapply PInv_mono; eauto).
+    assert (Ih : PInv h0 Ww Wk st n) by (eapply PInv_mono; eauto).
     exact (IHb _ _ _ B Ih).
+  - (* call record: runs as its effect *)
+    simpl in Hs. exact (IHe _ _ _ Hs I).
 Qed.
 
-(* the arrays of the parameters the function is allowed to write or keep *)
+(* the arrays of the parameters flagged in a list of booleans *)
 Fixpoint writable (regs : list slice) (own0 : list bool) : list nat :=
   match regs, own0 with
   | s :: regs', b :: own' => if b then arr s :: writable regs' own' else writable regs' own'
@@ -399,24 +479,37 @@ Proof.
   apply andb_prop in H. destruct H as [Hb H]. destruct b; [discriminate|]. auto.
 Qed.
 
+Lemma nth_init_flags wf : forall kf v,
+  (fw (nth v (init_flags wf kf) fbot) = true -> nth v wf false = true) /\
+  (fk (nth v (init_flags wf kf) fbot) = true -> nth v kf false = true).
+Proof.
+  unfold init_flags. induction wf as [|a wf IH]; intros [|b kf] [|v]; simpl; split; intros H; try discriminate; auto;
+    apply (IH kf v); exact H.
+Qed.
+
+Lemma length_init_flags wf kf : length wf = length kf -> length (init_flags wf kf) = length wf.
+Proof. intros H. unfold init_flags. rewrite map_length, combine_length. lia. Qed.
+
 (* THE FRAME THEOREM for function bodies. *)
-Theorem disciplined_body_frames_the_caller h0 regs own0 prog o h' regs' lg' :
-  length own0 = length regs ->
-  body_disciplined own0 prog = true ->
+Theorem disciplined_body_frames_the_caller h0 regs wf kf prog o h' regs' lg' :
+  length wf = length regs -> length kf = length regs ->
+  body_disciplined wf kf prog = true ->
   exec (h0, regs, []) prog o (h', regs', lg') ->
-  (forall s, wf_slice h0 s -> ~ In (arr s) (writable regs own0) ->
+  (forall s, wf_slice h0 s -> ~ In (arr s) (writable regs wf) ->
      read h' s = read h0 s /\ read_cap h' s = read_cap h0 s) /\
   (forall r, In r lg' ->
-     (length h0 <= arr r /\ forall s, wf_slice h0 s -> arr s <> arr r) \/ In (arr r) (writable regs own0)).
+     (length h0 <= arr r /\ forall s, wf_slice h0 s -> arr s <> arr r) \/ In (arr r) (writable regs kf)).
 Proof.
-  unfold body_disciplined. intros L D X.
-  destruct (own_stmt prog own0) as [[n j]|] eqn:S; [|discriminate].
-  assert (I0 : PInv h0 (writable regs own0) (h0, regs, []) own0).
+  unfold body_disciplined. intros Lw Lk D X.
+  destruct (own_stmt prog (init_flags wf kf)) as [[n j]|] eqn:S; [|discriminate].
+  assert (I0 : PInv h0 (writable regs wf) (writable regs kf) (h0, regs, []) (init_flags wf kf)).
   { repeat split; auto.
     - intros s [].
-    - intros v s Hv Ho. right. eapply writable_spec; eauto. }
-  pose proof (own_stmt_sound h0 _ _ _ _ _ X _ _ _ S I0) as R.
-  assert (F : PFrame h0 (writable regs own0) (h', regs', lg')).
+    - rewrite length_init_flags; lia.
+    - intros v s Hv Ho. right. eapply writable_spec; eauto. apply (nth_init_flags wf kf v). exact Ho.
+    - intros v s Hv Ho. right. eapply writable_spec; eauto. apply (nth_init_flags wf kf v). exact Ho. }
+  pose proof (own_stmt_sound h0 _ _ _ _ _ _ X _ _ _ S I0) as R.
+  assert (F : PFrame h0 (writable regs wf) (writable regs kf) (h', regs', lg')).
   { destruct o; [eapply PInv_frame; eauto|eapply PInv_frame; eauto|exact R]. }
   destruct F as (Lh & Fa & G). split.
   - intros s (Ha & _) Hw. split; [apply read_ext | apply read_cap_ext]; apply Fa; auto.
@@ -426,15 +519,16 @@ Qed.
 
 (* for an API function (no parameter may be written or kept): the caller's whole memory is unchanged
    and every escaped slice is in an array allocated during the call *)
-Corollary disciplined_api_body_frames_the_caller h0 regs own0 prog o h' regs' lg' :
-  length own0 = length regs -> forallb negb own0 = true ->
-  body_disciplined own0 prog = true ->
+Corollary disciplined_api_body_frames_the_caller h0 regs wf kf prog o h' regs' lg' :
+  length wf = length regs -> length kf = length regs ->
+  forallb negb wf = true -> forallb negb kf = true ->
+  body_disciplined wf kf prog = true ->
   exec (h0, regs, []) prog o (h', regs', lg') ->
   (forall s, wf_slice h0 s -> read h' s = read h0 s /\ read_cap h' s = read_cap h0 s) /\
   (forall r, In r lg' -> length h0 <= arr r /\ forall s, wf_slice h0 s -> arr s <> arr r).
 Proof.
-  intros L N D X. destruct (disciplined_body_frames_the_caller _ _ _ _ _ _ _ _ L D X) as [F G].
-  rewrite (writable_none regs own0 N) in *. split.
+  intros Lw Lk Nw Nk D X. destruct (disciplined_body_frames_the_caller _ _ _ _ _ _ _ _ _ Lw Lk D X) as [F G].
+  rewrite (writable_none regs wf Nw) in *. rewrite (writable_none regs kf Nk) in *. split.
   - intros s Ws. apply F; auto.
   - intros r Hr. destruct (G r Hr) as [K|[]]. exact K.
 Qed.
@@ -447,7 +541,7 @@ Example disciplined_body_example :
   let h0 := [[1; 2; 3]%N; [9; 9]%N] in
   let regs := [mkSlice 0 0 3 3; mkSlice 1 0 2 2; mkSlice 0 0 0 0] in
   let prog := seq [SClone 2 0; SLoop (seq [SSet 2; SIf SJump SSkip]); SEscape 2; SReturn] in
-  body_disciplined [false; false; false] prog = true /\
+  body_disciplined [false; false; false] [false; false; false] prog = true /\
   exists h' regs' r, exec (h0, regs, []) prog OReturn (h', regs', [r]) /\ arr r = 2 /\
     firstn 2 h' = h0 /\ read h' r = [7; 2; 3]%N.
 Proof.
@@ -468,15 +562,15 @@ Qed.
 (* the analysis is necessary: a body that lets a callee write into a parameter, appends to it, or
    keeps it, has an execution in which the caller sees the change / the kept slice is the caller's *)
 Theorem undisciplined_bodies_refuted :
-  (body_disciplined [false] (SWrite 0) = false /\
+  (body_disciplined [false] [false] (SWrite 0) = false /\
    exists h0 param caller h' regs' lg',
      exec (h0, [param], []) (SWrite 0) ONormal (h', regs', lg') /\ wf_slice h0 caller /\
      read_cap h' caller <> read_cap h0 caller) /\
-  (body_disciplined [false; false] (SAppend 1 0) = false /\
+  (body_disciplined [false; false] [false; false] (SAppend 1 0) = false /\
    exists h0 param caller h' regs' lg',
      exec (h0, [param; param], []) (SAppend 1 0) ONormal (h', regs', lg') /\ wf_slice h0 caller /\
      read h' caller <> read h0 caller) /\
-  (body_disciplined [false] (SEscape 0) = false /\
+  (body_disciplined [false] [false] (SEscape 0) = false /\
    exists h0 param h' regs' r,
      exec (h0, [param], []) (SEscape 0) ONormal (h', regs', [r]) /\ wf_slice h0 param /\ arr r = arr param).
 Proof.
@@ -491,3 +585,37 @@ Proof.
     + apply E_atom. eapply A_escape. reflexivity.
     + split; [unfold wf_slice; simpl; lia|reflexivity].
 Qed.
+
+(* the full check of one table entry, as far as it does not need the table *)
+Definition body_checked (objs : list nat) (wf kf : list bool) (p : stmt) : bool :=
+  obj_wf objs p && body_disciplined wf kf p.
+
+(* NEGATIVE EXAMPLES (third audit).  Register 0 is a byte-slice parameter the function owns in no sense.
+   - the pointer-alias probes: an object register copied with SAlias / SPhi, a store through the copy, the
+     original returned (or written through): rejected - object registers may not be copied (one register per
+     may-alias class is what the translator must emit);
+   - what the translator emits for them instead (one register for o1 and o2): the store lowers the class, the
+     escape / the write is rejected by the ownership analysis;
+   - the Read(p) exemption grants WRITE only: keeping a piece of p in the receiver is rejected. *)
+Example alias_probes_are_rejected :
+  body_checked [1; 2] [false; false; false] [false; false; false]
+    (seq [SMake 1; SAlias 2 1; SStore 2 0; SEscape 1; SReturn]) = false /\
+  body_checked [1; 2; 3] [false; false; false; false] [false; false; false; false]
+    (seq [SMake 1; SAlias 2 1; SAlias 3 2; SStore 3 0; SEscape 2; SReturn]) = false /\
+  body_checked [1; 2; 3; 4; 5] [false; false; false; false; false; false] [false; false; false; false; false; false]
+    (seq [SMake 1; SMake 2; SPhi 3 [1; 2]; SAlias 4 3; SLoop (seq [SAlias 5 4; SStore 5 0]); SEscape 4; SReturn]) = false /\
+  body_checked [1; 2; 3; 4] [false; false; false; false; false] [false; false; false; false; false]
+    (seq [SMake 1; SPhi 2 [1]; SAlias 3 2; SAlias 4 3; SStore 4 0; SSet 3; SReturn]) = false /\
+  (* one register per class: o1 = o2 = register 1 *)
+  body_checked [1] [false; false] [false; false] (seq [SMake 1; SStore 1 0; SEscape 1; SReturn]) = false /\
+  body_checked [1] [false; false] [false; false] (seq [SMake 1; SStore 1 0; SSet 1; SReturn]) = false /\
+  (* ... while the same shape with a clone of the parameter passes *)
+  body_checked [1] [false; false; false] [false; false; false]
+    (seq [SMake 1; SClone 2 0; SStore 1 2; SEscape 1; SReturn]) = true /\
+  (* Read(p): register 0 = the receiver (nothing allowed), register 1 = p (write allowed, keep not) *)
+  body_checked [0] [false; true] [false; false] (seq [SSet 1; SReturn]) = true /\
+  body_checked [0] [false; true; false] [false; false; false] (seq [SSub 2 1; SSet 2; SReturn]) = true /\
+  body_checked [0] [false; true; false] [false; false; false] (seq [SSub 2 1; SStore 0 2; SReturn]) = false /\
+  (* storing into an object after it was handed out lets the stored value escape *)
+  body_checked [1] [false; false] [false; false] (seq [SMake 1; SEscape 1; SStore 1 0; SReturn]) = false.
+Proof. vm_compute. repeat split. Qed.
